@@ -89,6 +89,11 @@ func Call(
 	if err != nil {
 		return nil, err
 	}
+	if obj == nil {
+		// The name was declared by code that did not run (e.g. inside an
+		// untaken branch), so it has no value.
+		return nil, fmt.Errorf("global %q has no value", functionName)
+	}
 	fn, ok := obj.(*object.Function)
 	if !ok {
 		return nil, fmt.Errorf("object is not a function (got: %s)", obj.Type())
